@@ -117,6 +117,12 @@ let rec nth_error l = function
            | [] -> None
            | _ :: l0 -> nth_error l0 n0)
 
+(** val rev : 'a1 list -> 'a1 list **)
+
+let rec rev = function
+| [] -> []
+| x :: l' -> app (rev l') (x :: [])
+
 (** val map : ('a1 -> 'a2) -> 'a1 list -> 'a2 list **)
 
 let rec map f = function
@@ -141,6 +147,12 @@ let rec fold_left f l a0 =
 let rec fold_right f a0 = function
 | [] -> a0
 | b :: t -> f b (fold_right f a0 t)
+
+(** val existsb : ('a1 -> bool) -> 'a1 list -> bool **)
+
+let rec existsb f = function
+| [] -> false
+| a :: l0 -> (||) (f a) (existsb f l0)
 
 (** val forallb : ('a1 -> bool) -> 'a1 list -> bool **)
 
@@ -172,6 +184,21 @@ let rec firstn n l =
   | S n0 -> (match l with
              | [] -> []
              | a :: l0 -> a :: (firstn n0 l0))
+
+(** val skipn : nat -> 'a1 list -> 'a1 list **)
+
+let rec skipn n l =
+  match n with
+  | O -> l
+  | S n0 -> (match l with
+             | [] -> []
+             | _ :: l0 -> skipn n0 l0)
+
+(** val seq : nat -> nat -> nat list **)
+
+let rec seq start = function
+| O -> []
+| S len1 -> start :: (seq (S start) len1)
 
 (** val repeat : 'a1 -> nat -> 'a1 list **)
 
@@ -581,12 +608,12 @@ module Z =
          let (aa, bb) = p in ((Zpos g), ((Zneg aa), (Zneg bb))))
  end
 
-(** val pow_pos : ('a1 -> 'a1 -> 'a1) -> 'a1 -> positive -> 'a1 **)
+(** val zeq_bool : z -> z -> bool **)
 
-let rec pow_pos rmul x = function
-| XI i0 -> let p = pow_pos rmul x i0 in rmul x (rmul p p)
-| XO i0 -> let p = pow_pos rmul x i0 in rmul p p
-| XH -> x
+let zeq_bool x y =
+  match Z.compare x y with
+  | Eq -> true
+  | _ -> false
 
 type q = { qnum : z; qden : positive }
 
@@ -594,6 +621,11 @@ type q = { qnum : z; qden : positive }
 
 let inject_Z x =
   { qnum = x; qden = XH }
+
+(** val qeq_bool : q -> q -> bool **)
+
+let qeq_bool x y =
+  zeq_bool (Z.mul x.qnum (Zpos y.qden)) (Z.mul y.qnum (Zpos x.qden))
 
 (** val qle_bool : q -> q -> bool **)
 
@@ -633,18 +665,6 @@ let qinv x =
 
 let qdiv x y =
   qmult x (qinv y)
-
-(** val qpower_positive : q -> positive -> q **)
-
-let qpower_positive =
-  pow_pos qmult
-
-(** val qpower : q -> z -> q **)
-
-let qpower q0 = function
-| Z0 -> { qnum = (Zpos XH); qden = XH }
-| Zpos p -> qpower_positive q0 p
-| Zneg p -> qinv (qpower_positive q0 p)
 
 (** val qred : q -> q **)
 
@@ -1052,14 +1072,25 @@ let status_of c s x =
 let value_of c s x =
   qminus x.c_obj (thr_base c (look s x.c_cell))
 
+(** val qpow : q -> nat -> q **)
+
+let rec qpow q0 = function
+| O -> { qnum = (Zpos XH); qden = XH }
+| S k -> qmult q0 (qpow q0 k)
+
+(** val qnat : nat -> q **)
+
+let qnat n =
+  inject_Z (Z.of_nat n)
+
 (** val batch_thr : cfg -> q -> 'a1 cand list -> q **)
 
 let batch_thr c t grp =
-  let k = Z.of_nat (length grp) in
-  let ratio = qpower (qminus { qnum = (Zpos XH); qden = XH } c.lr) k in
+  let k = length grp in
+  let ratio = qpow (qminus { qnum = (Zpos XH); qden = XH } c.lr) k in
   qred
     (qplus (qmult ratio t)
-      (qmult (qdiv (qsum (map (fun c0 -> c0.c_obj) grp)) (inject_Z k))
+      (qmult (qdiv (qsum (map (fun c0 -> c0.c_obj) grp)) (qnat k))
         (qminus { qnum = (Zpos XH); qden = XH } ratio)))
 
 (** val new_thr : cfg -> 'a1 row store -> 'a1 cand -> 'a1 cand list -> q **)
@@ -1166,11 +1197,6 @@ let stats0 =
 let arch_init c =
   { a_store = (init c.cells); a_sum = { qnum = Z0; qden = XH }; a_stats =
     stats0; a_best = None }
-
-(** val qnat : nat -> q **)
-
-let qnat n =
-  inject_Z (Z.of_nat n)
 
 (** val stats_update :
     cfg -> 'a1 archive -> 'a1 row store -> q -> nat -> 'a1 archive **)
@@ -1796,3 +1822,515 @@ let run_ARCH = function
                | Some cc -> SL (arch_ops cc (arch_init cc) ops)
                | None -> sx_fail)
             | _ :: _ -> sx_fail))))
+
+(** val insert_by :
+    ('a1 -> 'a1 -> bool) -> (nat -> 'a1) -> nat -> nat list -> nat list **)
+
+let rec insert_by le key i l = match l with
+| [] -> i :: []
+| j :: t -> if le (key i) (key j) then i :: l else j :: (insert_by le key i t)
+
+(** val stable_sort_by :
+    ('a1 -> 'a1 -> bool) -> (nat -> 'a1) -> nat list -> nat list **)
+
+let stable_sort_by le key l =
+  fold_right (insert_by le key) [] l
+
+(** val getq : q list -> nat -> q **)
+
+let getq a i =
+  nth i a { qnum = Z0; qden = XH }
+
+(** val argsort : q list -> nat list **)
+
+let argsort a =
+  stable_sort_by qle_bool (getq a) (seq O (length a))
+
+(** val lexsort : q list list -> nat -> nat list **)
+
+let lexsort keys n =
+  fold_left (fun perm k -> stable_sort_by qle_bool (getq k) perm) keys
+    (seq O n)
+
+(** val flip : 'a1 list -> 'a1 list **)
+
+let flip =
+  rev
+
+(** val zipwith : ('a1 -> 'a2 -> 'a3) -> 'a1 list -> 'a2 list -> 'a3 list **)
+
+let rec zipwith f a b =
+  match a with
+  | [] -> []
+  | x :: a' ->
+    (match b with
+     | [] -> []
+     | y :: b' -> (f x y) :: (zipwith f a' b'))
+
+(** val dot : q list -> q list -> q **)
+
+let dot m d =
+  fold_right qplus { qnum = Z0; qden = XH } (zipwith qmult m d)
+
+type archive0 = { a_lower : q list; a_upper : q list;
+                  a_density : (q list list -> q list) option }
+
+type data0 = { d_objective : q list; d_measures : q list list }
+
+type add_info = { i_status : z list; i_value : q list; i_novelty : q list }
+
+type values =
+| V1 of q list
+| V2 of (q * q) list
+
+type kind =
+| Imp
+| TwoImp
+| RD
+| TwoRD
+| Obj
+| TwoObj
+| Nov
+| Density
+
+type ranker = { r_kind : kind; r_dir : q list option; r_rng : q list }
+
+(** val new_ranker : kind -> q list -> ranker **)
+
+let new_ranker k stream =
+  { r_kind = k; r_dir = None; r_rng = stream }
+
+(** val is_rd : kind -> bool **)
+
+let is_rd = function
+| RD -> true
+| TwoRD -> true
+| _ -> false
+
+(** val single_stage : q list -> nat list * values **)
+
+let single_stage key =
+  ((flip (argsort key)), (V1 key))
+
+(** val two_stage : z list -> q list -> (nat list * values) result **)
+
+let two_stage status key =
+  if Nat.eqb (length status) (length key)
+  then let rv = combine (map inject_Z status) key in
+       Ok
+       ((flip (lexsort ((map snd rv) :: ((map fst rv) :: [])) (length rv))),
+       (V2 rv))
+  else Err ValueError
+
+(** val projections : q list list -> q list -> q list result **)
+
+let projections measures d =
+  if forallb (fun m -> Nat.eqb (length m) (length d)) measures
+  then Ok (map (fun m -> dot m d) measures)
+  else Err ValueError
+
+(** val rank :
+    ranker -> archive0 -> data0 -> add_info -> (nat list * values) result **)
+
+let rank r a d i =
+  match r.r_kind with
+  | Imp -> Ok (single_stage i.i_value)
+  | TwoImp -> two_stage i.i_status i.i_value
+  | RD ->
+    (match r.r_dir with
+     | Some dir ->
+       (match projections d.d_measures dir with
+        | Ok p -> Ok (single_stage p)
+        | Err e -> Err e)
+     | None -> Err RuntimeError)
+  | TwoRD ->
+    (match r.r_dir with
+     | Some dir ->
+       (match projections d.d_measures dir with
+        | Ok p -> two_stage i.i_status p
+        | Err e -> Err e)
+     | None -> Err RuntimeError)
+  | Obj -> Ok (single_stage d.d_objective)
+  | TwoObj -> two_stage i.i_status d.d_objective
+  | Nov -> Ok (single_stage i.i_novelty)
+  | Density ->
+    (match a.a_density with
+     | Some f -> let dens = f d.d_measures in Ok ((argsort dens), (V1 dens))
+     | None -> Err OtherError)
+
+(** val reset : ranker -> archive0 -> ranker result **)
+
+let reset r a =
+  if is_rd r.r_kind
+  then let ranges = zipwith qminus a.a_upper a.a_lower in
+       let measure_dim = length ranges in
+       if Nat.ltb (length r.r_rng) measure_dim
+       then Err OtherError
+       else Ok { r_kind = r.r_kind; r_dir = (Some
+              (zipwith qmult (firstn measure_dim r.r_rng) ranges)); r_rng =
+              (skipn measure_dim r.r_rng) }
+  else Ok r
+
+(** val set_dir : ranker -> q list -> ranker **)
+
+let set_dir r d =
+  { r_kind = r.r_kind; r_dir = (Some d); r_rng = r.r_rng }
+
+(** val batch_size : values -> nat **)
+
+let batch_size = function
+| V1 l -> length l
+| V2 l -> length l
+
+(** val key_at : values -> nat -> q * q **)
+
+let key_at v i =
+  match v with
+  | V1 l -> ({ qnum = Z0; qden = XH }, (nth i l { qnum = Z0; qden = XH }))
+  | V2 l -> nth i l ({ qnum = Z0; qden = XH }, { qnum = Z0; qden = XH })
+
+(** val at_least_as_good_b : kind -> (q * q) -> (q * q) -> bool **)
+
+let at_least_as_good_b k x y =
+  match k with
+  | Density -> qle_bool (snd x) (snd y)
+  | _ ->
+    (||) (negb (qle_bool (fst x) (fst y)))
+      ((&&) (qeq_bool (fst x) (fst y)) (qle_bool (snd y) (snd x)))
+
+(** val is_perm_b : nat list -> nat -> bool **)
+
+let is_perm_b idx n =
+  (&&) (Nat.eqb (length idx) n)
+    (forallb (fun i -> existsb (Nat.eqb i) idx) (seq O n))
+
+(** val adjacent_b : ('a1 -> 'a1 -> bool) -> 'a1 list -> bool **)
+
+let rec adjacent_b r = function
+| [] -> true
+| x :: t ->
+  (match t with
+   | [] -> true
+   | y :: _ -> (&&) (r x y) (adjacent_b r t))
+
+(** val sorted_b : kind -> values -> nat list -> bool **)
+
+let sorted_b k v idx =
+  adjacent_b (at_least_as_good_b k) (map (key_at v) idx)
+
+(** val c17_err_code : err -> z **)
+
+let c17_err_code = function
+| ValueError -> Zpos XH
+| IndexError -> Zpos (XO XH)
+| RuntimeError -> Zpos (XI XH)
+| KeyError -> Zpos (XO (XO XH))
+| TypeError -> Zpos (XI (XO XH))
+| StopIteration -> Zpos (XO (XI XH))
+| OtherError -> Zpos (XI (XI XH))
+
+(** val c17_dkind : sx -> kind option **)
+
+let c17_dkind = function
+| SZ z0 ->
+  (match z0 with
+   | Z0 -> Some Imp
+   | Zpos p ->
+     (match p with
+      | XI p0 ->
+        (match p0 with
+         | XI p1 -> (match p1 with
+                     | XH -> Some Density
+                     | _ -> None)
+         | XO p1 -> (match p1 with
+                     | XH -> Some TwoObj
+                     | _ -> None)
+         | XH -> Some TwoRD)
+      | XO p0 ->
+        (match p0 with
+         | XI p1 -> (match p1 with
+                     | XH -> Some Nov
+                     | _ -> None)
+         | XO p1 -> (match p1 with
+                     | XH -> Some Obj
+                     | _ -> None)
+         | XH -> Some RD)
+      | XH -> Some TwoImp)
+   | Zneg _ -> None)
+| SL _ -> None
+
+(** val c17_dpair : sx -> (q * q) option **)
+
+let c17_dpair = function
+| SZ _ -> None
+| SL l ->
+  (match l with
+   | [] -> None
+   | a :: l0 ->
+     (match l0 with
+      | [] -> None
+      | b :: l1 ->
+        (match l1 with
+         | [] ->
+           (match dq a with
+            | Some x -> (match dq b with
+                         | Some y -> Some (x, y)
+                         | None -> None)
+            | None -> None)
+         | _ :: _ -> None)))
+
+(** val c17_dvalues : sx -> values option **)
+
+let c17_dvalues = function
+| SZ _ -> None
+| SL l0 ->
+  (match l0 with
+   | [] -> None
+   | s0 :: l1 ->
+     (match s0 with
+      | SZ z0 ->
+        (match z0 with
+         | Zpos p ->
+           (match p with
+            | XI _ -> None
+            | XO p0 ->
+              (match p0 with
+               | XH ->
+                 (match l1 with
+                  | [] -> None
+                  | l :: l2 ->
+                    (match l2 with
+                     | [] ->
+                       (match dlist c17_dpair l with
+                        | Some v -> Some (V2 v)
+                        | None -> None)
+                     | _ :: _ -> None))
+               | _ -> None)
+            | XH ->
+              (match l1 with
+               | [] -> None
+               | l :: l2 ->
+                 (match l2 with
+                  | [] ->
+                    (match dlist dq l with
+                     | Some v -> Some (V1 v)
+                     | None -> None)
+                  | _ :: _ -> None)))
+         | _ -> None)
+      | SL _ -> None))
+
+(** val c17_evalues : values -> sx **)
+
+let c17_evalues = function
+| V1 l -> SL ((SZ (Zpos XH)) :: ((elist eq_ l) :: []))
+| V2 l ->
+  SL ((SZ (Zpos (XO
+    XH))) :: ((elist (fun p -> SL ((eq_ (fst p)) :: ((eq_ (snd p)) :: []))) l) :: []))
+
+(** val c17_edir : ranker -> sx **)
+
+let c17_edir r =
+  eopt (elist eq_) r.r_dir
+
+(** val c17_darchive : sx -> sx -> sx -> archive0 option **)
+
+let c17_darchive lo up dens =
+  match dlist dq lo with
+  | Some l ->
+    (match dlist dq up with
+     | Some u ->
+       (match dopt (dlist dq) dens with
+        | Some t ->
+          Some { a_lower = l; a_upper = u; a_density =
+            (match t with
+             | Some tab -> Some (fun _ -> tab)
+             | None -> None) }
+        | None -> None)
+     | None -> None)
+  | None -> None
+
+(** val c17_op : ranker -> sx -> ranker * sx **)
+
+let c17_op r = function
+| SZ _ -> (r, sx_fail)
+| SL l ->
+  (match l with
+   | [] -> (r, sx_fail)
+   | s :: l0 ->
+     (match s with
+      | SZ z0 ->
+        (match z0 with
+         | Z0 ->
+           (match l0 with
+            | [] -> (r, sx_fail)
+            | lo :: l1 ->
+              (match l1 with
+               | [] -> (r, sx_fail)
+               | up :: l2 ->
+                 (match l2 with
+                  | [] ->
+                    (match c17_darchive lo up (SL []) with
+                     | Some a ->
+                       (match reset r a with
+                        | Ok r' ->
+                          (r', (SL ((SZ Z0) :: ((c17_edir r') :: []))))
+                        | Err e -> (r, (SL ((SZ (c17_err_code e)) :: []))))
+                     | None -> (r, sx_fail))
+                  | _ :: _ -> (r, sx_fail))))
+         | Zpos p ->
+           (match p with
+            | XI p0 ->
+              (match p0 with
+               | XH ->
+                 (match l0 with
+                  | [] -> (r, sx_fail)
+                  | v :: l1 ->
+                    (match l1 with
+                     | [] -> (r, sx_fail)
+                     | idx :: l2 ->
+                       (match l2 with
+                        | [] ->
+                          (match c17_dvalues v with
+                           | Some vv ->
+                             (match dlist dnat idx with
+                              | Some ii ->
+                                (r, (SL
+                                  ((ebool (is_perm_b ii (batch_size vv))) :: (
+                                  (ebool (sorted_b r.r_kind vv ii)) :: []))))
+                              | None -> (r, sx_fail))
+                           | None -> (r, sx_fail))
+                        | _ :: _ -> (r, sx_fail))))
+               | _ -> (r, sx_fail))
+            | XO p0 ->
+              (match p0 with
+               | XI _ -> (r, sx_fail)
+               | XO p1 ->
+                 (match p1 with
+                  | XH ->
+                    (match l0 with
+                     | [] ->
+                       (r, (SL
+                         ((c17_edir r) :: ((enat (length r.r_rng)) :: []))))
+                     | _ :: _ -> (r, sx_fail))
+                  | _ -> (r, sx_fail))
+               | XH ->
+                 (match l0 with
+                  | [] -> (r, sx_fail)
+                  | lo :: l1 ->
+                    (match l1 with
+                     | [] -> (r, sx_fail)
+                     | up :: l2 ->
+                       (match l2 with
+                        | [] -> (r, sx_fail)
+                        | dens :: l3 ->
+                          (match l3 with
+                           | [] -> (r, sx_fail)
+                           | obj :: l4 ->
+                             (match l4 with
+                              | [] -> (r, sx_fail)
+                              | meas :: l5 ->
+                                (match l5 with
+                                 | [] -> (r, sx_fail)
+                                 | st0 :: l6 ->
+                                   (match l6 with
+                                    | [] -> (r, sx_fail)
+                                    | val0 :: l7 ->
+                                      (match l7 with
+                                       | [] -> (r, sx_fail)
+                                       | nov :: l8 ->
+                                         (match l8 with
+                                          | [] ->
+                                            (match c17_darchive lo up dens with
+                                             | Some a ->
+                                               (match dlist dq obj with
+                                                | Some ob ->
+                                                  (match dlist (dlist dq) meas with
+                                                   | Some ms ->
+                                                     (match dlist dz st0 with
+                                                      | Some ss ->
+                                                        (match dlist dq val0 with
+                                                         | Some vs ->
+                                                           (match dlist dq nov with
+                                                            | Some ns ->
+                                                              (r,
+                                                                (match 
+                                                                 rank r a
+                                                                   { d_objective =
+                                                                   ob;
+                                                                   d_measures =
+                                                                   ms }
+                                                                   { i_status =
+                                                                   ss;
+                                                                   i_value =
+                                                                   vs;
+                                                                   i_novelty =
+                                                                   ns } with
+                                                                 | Ok a0 ->
+                                                                   let (
+                                                                    idx, v) =
+                                                                    a0
+                                                                   in
+                                                                   SL ((SZ
+                                                                   Z0) :: (
+                                                                   (elist
+                                                                    enat idx) :: (
+                                                                   (c17_evalues
+                                                                    v) :: [])))
+                                                                 | Err e ->
+                                                                   SL ((SZ
+                                                                    (c17_err_code
+                                                                    e)) :: [])))
+                                                            | None ->
+                                                              (r, sx_fail))
+                                                         | None ->
+                                                           (r, sx_fail))
+                                                      | None -> (r, sx_fail))
+                                                   | None -> (r, sx_fail))
+                                                | None -> (r, sx_fail))
+                                             | None -> (r, sx_fail))
+                                          | _ :: _ -> (r, sx_fail)))))))))))
+            | XH ->
+              (match l0 with
+               | [] -> (r, sx_fail)
+               | d :: l1 ->
+                 (match l1 with
+                  | [] ->
+                    (match dlist dq d with
+                     | Some dir -> ((set_dir r dir), (SL ((SZ Z0) :: [])))
+                     | None -> (r, sx_fail))
+                  | _ :: _ -> (r, sx_fail))))
+         | Zneg _ -> (r, sx_fail))
+      | SL _ -> (r, sx_fail)))
+
+(** val c17_ops : ranker -> sx list -> sx list **)
+
+let rec c17_ops r = function
+| [] -> []
+| o :: t -> let (r', out) = c17_op r o in out :: (c17_ops r' t)
+
+(** val run_C17 : sx -> sx **)
+
+let run_C17 = function
+| SZ _ -> sx_fail
+| SL l ->
+  (match l with
+   | [] -> sx_fail
+   | k :: l0 ->
+     (match l0 with
+      | [] -> sx_fail
+      | st0 :: l1 ->
+        (match l1 with
+         | [] -> sx_fail
+         | s :: l2 ->
+           (match s with
+            | SZ _ -> sx_fail
+            | SL ops ->
+              (match l2 with
+               | [] ->
+                 (match c17_dkind k with
+                  | Some kk ->
+                    (match dlist dq st0 with
+                     | Some stream -> SL (c17_ops (new_ranker kk stream) ops)
+                     | None -> sx_fail)
+                  | None -> sx_fail)
+               | _ :: _ -> sx_fail)))))
